@@ -142,12 +142,13 @@ class QueueSink(Sink[Any]):
         self._foreach = foreach
 
     def write(self, item: Any) -> None:
-        try:
-            item = (item if self._foreach else [item])
-            for i in item:
+        item = (item if self._foreach else [item])
+        #only the put is guarded: iterating `item` may run a lazy upstream filter whose errors must propagate
+        for i in item:
+            try:
                 self._queue.put(i)
-        except (EOFError,BrokenPipeError,AssertionError):
-            pass
+            except (EOFError,BrokenPipeError,AssertionError):
+                break
 
 class LambdaSink(Sink[Any]):
     """A sink which passes written items to a callable function."""
